@@ -282,6 +282,7 @@ func TestC03(t *testing.T) {
 	// rapid triples in [-1,2]^3
 	ev.RapidChecks(ev.Pick(10000, 1000000))
 	ev.RapidSeed(3)
+	var early []Case
 	rapid.Check(t, func(rt *rapid.T) {
 		a := &sp.Spaces[rapid.IntRange(0, 3).Draw(rt, "space")]
 		dir := rapid.SampledFrom([]string{"toXYZ", "fromXYZ", "rt-rgb", "rt-xyz", "mutated"}).Draw(rt, "dir")
@@ -313,10 +314,22 @@ func TestC03(t *testing.T) {
 		if ev.SampleN() < 4 {
 			ev.Sample(c)
 		}
+		if len(early) < 400 {
+			early = append(early, c)
+		}
 		if k, w := check(c); k != "" {
 			ev.Fail(rt, "xyz", a.Name+"/"+k, w, c)
 		}
 	})
+	// the first 400 generated cases once more, after everything else has been asked: what the library may have
+	// remembered in the meantime (memos, caches that filled up and evicted, adapted sizes) must not change them
+	for _, c := range early {
+		ev.Eval(1)
+		if k, w := check(c); k != "" {
+			ev.Violation("xyz", c.Space+"/"+k, "asked again after many other calls: "+w, c)
+			break
+		}
+	}
 	ev.Set("worst_error_over_tolerance", worst)
 	if ev.Violations() > 0 {
 		t.Fail()
